@@ -142,7 +142,7 @@ func genBlock(r *hx.Rng, st *AState, history []ATx) BlockSpec {
 }
 
 func genHistory(run *hx.Run, r *hx.Rng, maxOps int) *History {
-	h := &History{Cfg: genCfg(r), GasLim: gasLims[r.Intn(len(gasLims))]}
+	h := &History{Cfg: genCfg(r), GasLim: gasLims[r.Intn(len(gasLims))], Journal: r.Intn(8) == 0}
 	for i := range h.Genesis {
 		h.Genesis[i] = AcctSt{Nonce: []uint64{0, 0, 0, 1, 3}[r.Intn(5)], Balance: balances[r.Intn(len(balances))]}
 	}
